@@ -10,6 +10,15 @@ const { SYM } = require('../lib/tsyms');
 const L_HOSTS = ['div', 'frag', 'Fragment', 'FragmentI', 'FragmentAlias2', 'KeepAlive', 'iiconPat'];
 const L_CHILDREN = Object.keys(E.CHILDREN);
 
+// earlier statements (C02 is about one element, but its lowering must not depend on what was lowered before it)
+const PRIMERS = {
+  memberDiv: '__out.pre = () => <ns.div>p{x}</ns.div>;',
+  memberB: '__out.pre = () => [<ns.b.c>p</ns.b.c>, <ns.input>{y}</ns.input>];',
+  comp: '__out.pre = () => <Comp>{x}</Comp>;',
+  compTpl: '__out.pre = () => <Comp>{`p ${x}`}</Comp>;',
+  fragTpl: '__out.pre = () => <>{`p ${x}`}</>;',
+  keepAlive: "__out.pre = () => <KeepAlive><B/></KeepAlive>;",
+};
 function tSrc(s) { return s.map((i) => SYM[i][1]).join(''); }
 function tDec(s) { return s.map((i) => SYM[i][2]).join(''); }
 
@@ -46,6 +55,15 @@ function spaces(tier) {
         }
       },
     },
+    {
+      name: 'P:after-an-earlier-element',
+      bounds: { primers: Object.keys(PRIMERS), hosts: L_HOSTS, max_length: 2, note: 'an earlier statement of the module lowers another element first (same tag name as a member tag, a component, a fragment); what the later element\'s children become must not depend on it' },
+      *gen() {
+        for (const pre of Object.keys(PRIMERS)) for (const host of L_HOSTS) for (const ch of sequences(L_CHILDREN.length, 2, {
+          minLen: 1, ok: (idx, pos) => !(pos > 0 && E.isText(L_CHILDREN[idx[pos]]) && E.isText(L_CHILDREN[idx[pos - 1]])),
+        })) yield { sp: 'L', host, ch: ch.map((i) => L_CHILDREN[i]), pre };
+      },
+    },
   ];
 }
 
@@ -60,7 +78,8 @@ function requests(c) {
   }
   const h = E.HOSTS[c.host];
   const jsx = E.renderJsx(c.host, [], c.ch.map((k, i) => (c.w && c.w[0] === i ? E.wrapChild(E.CHILDREN[k].src, c.w[1]) : E.CHILDREN[k].src)));
-  return [{ src: E.renderModule(c.host, jsx), ts: !!c.w, want: ['eval'], opts: E.optsJson({ pattern: !!h.pattern }) }];
+  const mod = E.renderModule(c.host, jsx);
+  return [{ src: c.pre ? mod.replace('__out.mk =', PRIMERS[c.pre] + '\n__out.mk =') : mod, ts: !!c.w, want: ['eval'], opts: E.optsJson({ pattern: !!h.pattern }) }];
 }
 
 const EL = (t) => ({ __expectVNode: { type: 'tag:' + t, props: null, children: null } });
@@ -107,22 +126,23 @@ function* shrink(c) {
     // simplify symbols: any letter/entity → 'a'
     for (let i = 0; i < c.s.length; i++) if (['b', '&amp;'].includes(SYM[c.s[i]][0])) { const s = c.s.slice(); s[i] = 0; yield { sp: 'T', s }; }
   } else {
-    if (c.w) yield { sp: 'L', host: c.host, ch: c.ch };
+    if (c.pre) yield { sp: 'L', host: c.host, ch: c.ch, w: c.w };
+    if (c.w) yield { sp: 'L', host: c.host, ch: c.ch, pre: c.pre };
     if (c.w && c.w[1] !== 'paren') yield { sp: 'L', host: c.host, ch: c.ch, w: [c.w[0], 'paren'] };
     for (let i = 0; i < c.ch.length; i++) {
       if (c.w && c.w[0] === i) continue;
       const ch = c.ch.slice(0, i).concat(c.ch.slice(i + 1));
       let ok = true;
       for (let j = 1; j < ch.length; j++) if (E.isText(ch[j]) && E.isText(ch[j - 1])) ok = false;
-      if (ok) yield { sp: 'L', host: c.host, ch, w: c.w && [c.w[0] - (i < c.w[0] ? 1 : 0), c.w[1]] };
+      if (ok) yield { sp: 'L', host: c.host, ch, pre: c.pre, w: c.w && [c.w[0] - (i < c.w[0] ? 1 : 0), c.w[1]] };
     }
-    if (c.host !== 'div') yield { sp: 'L', host: 'div', ch: c.ch, w: c.w };
+    if (c.host !== 'div') yield { sp: 'L', host: 'div', ch: c.ch, w: c.w, pre: c.pre };
   }
 }
 
 function caseKey(c) {
   if (c.sp === 'T') return 'T:' + c.s.map((i) => SYM[i][0]).join('.');
-  return `L:${c.host}[${c.ch.map((k, i) => (c.w && c.w[0] === i ? c.w[1] + '(' + k + ')' : k)).join(',')}]`;
+  return `L:${c.host}[${c.ch.map((k, i) => (c.w && c.w[0] === i ? c.w[1] + '(' + k + ')' : k)).join(',')}]${c.pre ? ' after ' + c.pre : ''}`;
 }
 
 module.exports = {
